@@ -62,6 +62,9 @@ PURE_PREFIXES = ("numpy.", "scipy.", "np.", "math.", "time.")
 PURE_NAMES = {"range", "len", "isinstance", "print", "round", "int", "float", "complex", "abs", "min", "max", "str", "dict", "list",
               "tuple", "enumerate", "zip", "type", "debug", "bool", "sum", "Exception", "hasattr", "getattr", "printlog", "repr", "format"}
 VIEW_FUNCS = {"numpy.real", "numpy.imag", "numpy.asarray", "numpy.transpose", "numpy.conj"}
+# library functions that modify their first argument in place
+MUTATING_FUNCS = {"numpy.copyto", "numpy.put", "numpy.fill_diagonal", "numpy.place", "numpy.putmask", "numpy.put_along_axis", "numpy.add.at",
+                  "numpy.subtract.at", "numpy.multiply.at", "numpy.random.shuffle", "numpy.ndarray.sort", "numpy.ndarray.fill"}
 LOG_PREFIXES = ("qr.log_", "qr.printlog", "qr.loglevels2bool")
 # constructor name -> list of (argument index, attribute path written, kind) on the objects passed in
 CONSTRUCTOR_EFFECTS = {
@@ -272,7 +275,7 @@ class Analysis:
             if node.id in st.env:
                 return st.env[node.id]
             return frozenset([GLOB])
-        if isinstance(node, (ast.Constant, ast.JoinedStr, ast.Compare, ast.Lambda)):
+        if isinstance(node, (ast.Constant, ast.JoinedStr, ast.Compare)):
             for ch in ast.iter_child_nodes(node):
                 if isinstance(ch, ast.expr):
                     self.ev(st, ch)
@@ -372,6 +375,11 @@ class Analysis:
             for v in allv:
                 out |= flat(v)
             return out | {FRESH}
+        if fname in MUTATING_FUNCS:
+            if not args:
+                raise Untranslatable("%s without a positional target" % fname)
+            self.write(st, frozenset(o for o in flat(args[0]) if o[0] in ("loc", "glob")), None, "any", inplace=True, what=fname)
+            return frozenset([FRESH])
         if fname.startswith(PURE_PREFIXES) or (isinstance(f, ast.Name) and f.id in PURE_NAMES and f.id not in st.env):
             if "out" in kws:
                 raise Untranslatable("%s with out=" % fname)
@@ -381,6 +389,8 @@ class Analysis:
             self.notes.add(f.id)
             return frozenset([FRESH])
         # constructors
+        if isinstance(f, ast.Name) and f.id == "Manager" and f.id not in st.env:
+            return frozenset([GLOB])          # the singleton: reading its settings is fine, a store into it raises Untranslatable
         if isinstance(f, ast.Name) and f.id in CONSTRUCTORS and f.id not in st.env:
             self.notes.add("constructors")
             if f.id in self.raising:
